@@ -721,7 +721,11 @@ func releaseRules(a *Anchors, r *core.Report, rule string, floor int) {
 
 // c06SwapDelete: G4 — S[a] = S[b]; S = S[1:]  requires b == 0 (the dropped element is saved into the vacated slot)
 func c06SwapDelete(a *Anchors, r *core.Report) {
-	rule := "C06.G4 swap-delete"
+	swapDeleteRules(a, r, "C06.G4 swap-delete")
+}
+
+func swapDeleteRules(a *Anchors, r *core.Report, rule string) {
+	rid := strings.SplitN(rule, " ", 2)[0]
 	r.Floor(rule, 1)
 	for _, f := range a.P.SrcFuncs {
 		eachInstr(f, func(in ssa.Instruction) {
@@ -768,7 +772,7 @@ func c06SwapDelete(a *Anchors, r *core.Report) {
 				return
 			}
 			fn := fname(f)
-			key := "C06.G4|" + fn + "|" + strings.Join(pd, ".")
+			key := rid + "|" + fn + "|" + strings.Join(pd, ".")
 			inst := "remove-by-swap on " + strings.Join(pd, ".") + ": the found slot receives the element that is then dropped"
 			dropFirst := false
 			if res.Low != nil {
